@@ -186,6 +186,10 @@ def _work(idx: int) -> dict:
     return out
 
 
+def _work_indexed(idx: int):
+    return idx, _work(idx)
+
+
 def _make_loader(inst: Instance):
     mk = inst.meta.get("make_loader")
     if mk is not None:
@@ -236,12 +240,47 @@ def run_property(pid: str, instances: List[Instance], meta: dict, tier: str, see
     _CFG = {"seed": seed, "max_validate": 64 if tier == "quick" else 512,
             "time_budget": float(os.environ.get("SYMTDF_INSTANCE_BUDGET_S", "240" if tier == "quick" else "1500"))}
     os.makedirs(os.path.join(OUT, "replays", pid), exist_ok=True)
+    # Global early stop: once enough instances have produced replayed violations, or the
+    # check's overall time budget is spent, the remaining instances are not run (they are
+    # listed as skipped; with no violation in hand that makes the run inconclusive).
+    overall_budget = float(os.environ.get("SYMTDF_CHECK_BUDGET_S", "1500" if tier == "quick" else "6000"))
+    stop_after_violating = int(os.environ.get("SYMTDF_STOP_AFTER_VIOLATING_INSTANCES", "12"))
+    results_by_idx: Dict[int, dict] = {}
+    skipped_instances: List[str] = []
     if jobs > 1 and len(_INSTANCES) > 1:
         ctxmp = mp.get_context("fork")
-        with ctxmp.Pool(min(jobs, len(_INSTANCES))) as pool:
-            outs = pool.map(_work, range(len(_INSTANCES)), chunksize=1)
+        pool = ctxmp.Pool(min(jobs, len(_INSTANCES)))
+        try:
+            it = pool.imap_unordered(_work_indexed, range(len(_INSTANCES)), chunksize=1)
+            nviol = 0
+            while len(results_by_idx) < len(_INSTANCES):
+                remaining = overall_budget - (time.time() - t0)
+                if remaining <= 0:
+                    break
+                try:
+                    idx, o = it.next(timeout=max(1.0, remaining))
+                except mp.TimeoutError:
+                    break
+                except StopIteration:
+                    break
+                results_by_idx[idx] = o
+                if o["violations"]:
+                    nviol += 1
+                    if nviol >= stop_after_violating:
+                        break
+        finally:
+            pool.terminate()
+            pool.join()
     else:
-        outs = [_work(i) for i in range(len(_INSTANCES))]
+        for i in range(len(_INSTANCES)):
+            results_by_idx[i] = _work(i)
+            if time.time() - t0 > overall_budget:
+                break
+    done_idx = sorted(results_by_idx)
+    skipped_instances = [_INSTANCES[i].name for i in range(len(_INSTANCES)) if i not in results_by_idx]
+    all_instances = _INSTANCES
+    _INSTANCES = [all_instances[i] for i in done_idx]
+    outs = [results_by_idx[i] for i in done_idx]
 
     known = load_known()
     violations, known_seen, problems, inconclusive = [], [], [], []
@@ -283,6 +322,8 @@ def run_property(pid: str, instances: List[Instance], meta: dict, tier: str, see
             continue_checks = False
         else:
             continue_checks = True
+        if o["inconclusive"]:
+            continue_checks = False  # paths were cut by a budget / solver unknown: inconclusive, not a harness defect
         if continue_checks and miss and not o["errors"]:
             goals_missing.append(f"{inst.name}: coverage goals not witnessed: {miss}")
         if continue_checks and o["ok_paths"] == 0 and not o["errors"] and not inst.meta.get("allow_no_ok_paths"):
@@ -297,6 +338,8 @@ def run_property(pid: str, instances: List[Instance], meta: dict, tier: str, see
     # unsupported paths are outside the modelled subset: nothing is claimed on them
     if unsupported:
         inconclusive.extend(unsupported)
+    if skipped_instances and not violations:
+        inconclusive.append(f"{len(skipped_instances)} instance(s) not run (overall time budget exhausted), e.g. {skipped_instances[:3]}")
     # a check most of whose instances ran only concretely decides nothing symbolically
     if len(degraded) * 2 > len(_INSTANCES):
         inconclusive.append(f"{len(degraded)} of {len(_INSTANCES)} instances left the modelled subset and were only replayed concretely")
@@ -349,6 +392,7 @@ def run_property(pid: str, instances: List[Instance], meta: dict, tier: str, see
             "exhaustive": False,
             "explanation": meta.get("explanation", ""),
             "instances": len(_INSTANCES),
+            "instances_skipped_after_early_stop_or_budget": len(skipped_instances),
             "paths_total": tot["paths"],
             "paths_infeasible_or_pruned": tot["aborted"],
             "queries": tot["queries"],
